@@ -64,7 +64,9 @@ def main(pid):
     total = len(traces)
     for ix, cl in fails:
         if cl.startswith("C03"):
-            vd.violation(cl, {"kind": "list", **traces[ix]}, {"clause": cl, "kinds": "-".join(c["kind"] for c in traces[ix]["l"])})
+            vd.violation(cl, {"kind": "list", **traces[ix]}, {"clause": cl, "kinds": "-".join(c["kind"] for c in traces[ix]["l"])},
+                         judge=vlib.J("Trace_Filter", "Trace_Filter.cfg", traces[ix]),
+                         rerun=vlib.R("drv_extract", "run_filter_lists", traces[ix]["l"], fields=["once", "twice", "raised"]))
     for ix, _ in drifts:
         vd.spec_drift("Filter", f"list {traces[ix]['l']} real={traces[ix]['once']}")
     ev.sample({"list": traces[len(traces) // 2]["l"], "kept_ids": traces[len(traces) // 2]["once"]})
@@ -94,7 +96,10 @@ def main(pid):
             vd.violation(cl, {"kind": "document", "text": docs[ix],
                               "cites": [(c["cls"], c["s"], c["e"], c["fs"], c["fe"]) for c in o["cites"]],
                               "merges": [[(c["cls"], c["s"], c["e"]) for c in m["once"]] for m in o["merges"]]},
-                         {"clause": cl, "classes": "-".join(c["cls"][:5] for c in o["cites"])[:80]})
+                         {"clause": cl, "classes": "-".join(c["cls"][:5] for c in o["cites"])[:80]},
+                         judge=vlib.J("Trace_Filter", "Trace_Filter.cfg", o),
+                         rerun=vlib.R("drv_extract", "run_docs", {"text": docs[ix], "tok": "aho"}, common={"merge": True},
+                                      fields=["cites", "merges", "raised"]))
     for ix, _ in drifts:
         vd.spec_drift("Filter", f"document {docs[ix][:100]!r}")
     nref = sum(1 for o in dobs for m in o["merges"] for c in m["ext"] if c["ref"])
